@@ -9,6 +9,7 @@ import (
 	"strings"
 	"unicode"
 	"unicode/utf16"
+	"unicode/utf8"
 )
 
 const (
@@ -133,6 +134,20 @@ func (lineParser *LineParser) parseMarkup() (*ParseResult, error) {
 		return nil, fmt.Errorf("failed to build attributes from markers: %w", err)
 	}
 
+	// The text is returned without its surrounding whitespace: attribute ranges, which were
+	// measured on the untrimmed text, are moved accordingly and kept within the returned text.
+	untrimmedText := builder.String()
+	text := strings.TrimSpace(untrimmedText)
+	leftTrimmedText := strings.TrimLeftFunc(untrimmedText, unicode.IsSpace)
+	leadingTrimmedLength := utf8.RuneCountInString(untrimmedText[:len(untrimmedText)-len(leftTrimmedText)])
+	textLength := utf8.RuneCountInString(text)
+	for i := range attributes {
+		start := min(max(attributes[i].Position-leadingTrimmedLength, 0), textLength)
+		end := min(max(attributes[i].Position+attributes[i].Length-leadingTrimmedLength, 0), textLength)
+		attributes[i].Position = start
+		attributes[i].Length = end - start
+	}
+
 	characterAttributeIsPresent := false
 	for _, attribute := range attributes {
 		if attribute.Name == characterAttribute {
@@ -142,9 +157,10 @@ func (lineParser *LineParser) parseMarkup() (*ParseResult, error) {
 	}
 
 	if !characterAttributeIsPresent {
-		match := endOfCharacterMarker.FindStringIndex(lineParser.input)
+		// the implicit character attribute covers the "Name: " prefix of the text, counted in characters
+		match := endOfCharacterMarker.FindStringIndex(text)
 		if match != nil {
-			characterName := lineParser.input[:match[0]]
+			characterName := text[:match[0]]
 			nameValue := Value{
 				StringValue: characterName,
 				ValueType:   ValueTypeString,
@@ -153,7 +169,7 @@ func (lineParser *LineParser) parseMarkup() (*ParseResult, error) {
 				Name:           characterAttribute,
 				Position:       0,
 				SourcePosition: 0,
-				Length:         match[1],
+				Length:         utf8.RuneCountInString(text[:match[1]]),
 				Properties: map[string]Value{
 					characterAttributeNameProperty: nameValue,
 				},
@@ -164,7 +180,7 @@ func (lineParser *LineParser) parseMarkup() (*ParseResult, error) {
 	}
 
 	return &ParseResult{
-		Text:       strings.TrimSpace(builder.String()),
+		Text:       text,
 		Attributes: attributes,
 	}, nil
 }
